@@ -275,30 +275,56 @@ func Run(cfg Config) int {
 		for _, u := range r.Inconcl {
 			inconclusive = append(inconclusive, r.Entry.Name+": "+u)
 		}
+		// counterexamples: replay one witness per (label, known-finding id); prefer short paths
+		groups := map[string][]*obligation{}
+		var gorder []string
 		for _, ob := range r.Obligations {
 			switch ob.Verdict {
 			case "unknown":
 				inconclusive = append(inconclusive, fmt.Sprintf("%s: obligation %s path %d: solver unknown", r.Entry.Name, ob.Label, ob.PathID))
 			case "sat":
-				if cfg.NoReplay {
-					ob.Replayed = "skipped"
-				} else {
-					dir, ok, out := rp.replay(r.Entry, ob)
-					ob.Replay = dir
+				k := ob.Label + "|" + ob.Known
+				if _, ok := groups[k]; !ok {
+					gorder = append(gorder, k)
+				}
+				groups[k] = append(groups[k], ob)
+			}
+		}
+		for _, k := range gorder {
+			obs := groups[k]
+			sort.SliceStable(obs, func(i, j int) bool { return obs[i].PCLen < obs[j].PCLen })
+			var hit *obligation
+			var lastOut, lastDir string
+			if cfg.NoReplay {
+				hit = obs[0]
+				hit.Replayed = "skipped"
+			} else {
+				for i := 0; i < len(obs) && i < 3; i++ {
+					dir, ok, out := rp.replay(r.Entry, obs[i])
+					obs[i].Replay = dir
+					lastOut, lastDir = out, dir
 					if ok {
-						ob.Replayed = "reproduced"
-					} else {
-						ob.Replayed = "not-reproduced"
-						inconclusive = append(inconclusive, fmt.Sprintf("%s: counterexample for %s did not reproduce natively (encoder/stub mismatch); see %s\n%s", r.Entry.Name, ob.Label, dir, tail(out, 15)))
-						continue
+						obs[i].Replayed = "reproduced"
+						hit = obs[i]
+						break
 					}
+					obs[i].Replayed = "not-reproduced"
 				}
-				if ob.Known != "" {
-					knownLines = append(knownLines, fmt.Sprintf("KNOWN-FINDING: property=%s %s [%s %s] replay=%s", cfg.Property, findingWhat(findings, ob.Known), ob.Known, ob.Label, ob.Replay))
-				} else {
-					violations = append(violations, fmt.Sprintf("VIOLATION property=%s replay=%s", cfg.Property, ob.Replay))
-					fmt.Fprintf(os.Stderr, "violation: entry=%s label=%s witness=%v\n", r.Entry.Name, ob.Label, ob.Witness)
+			}
+			if hit == nil {
+				inconclusive = append(inconclusive, fmt.Sprintf("%s: %d counterexample(s) for %s did not reproduce natively (encoder/stub mismatch); see %s\n%s", r.Entry.Name, len(obs), obs[0].Label, lastDir, tail(lastOut, 15)))
+				continue
+			}
+			for _, ob := range obs {
+				if ob != hit && ob.Replayed == "" {
+					ob.Replayed = "same-label-as-replayed"
 				}
+			}
+			if hit.Known != "" {
+				knownLines = append(knownLines, fmt.Sprintf("KNOWN-FINDING: property=%s %s [%s %s, %d path(s)] replay=%s", cfg.Property, findingWhat(findings, hit.Known), hit.Known, hit.Label, len(obs), hit.Replay))
+			} else {
+				violations = append(violations, fmt.Sprintf("VIOLATION property=%s replay=%s", cfg.Property, hit.Replay))
+				fmt.Fprintf(os.Stderr, "violation: entry=%s label=%s (%d path(s)) witness=%v\n", r.Entry.Name, hit.Label, len(obs), hit.Witness)
 			}
 		}
 		if !cfg.NoValidate && !cfg.NoReplay {
@@ -548,6 +574,10 @@ func runEntry(cfg Config, prog *symex.Program, e entryInfo, findings []Finding) 
 		res.Inconcl = append(res.Inconcl, "vacuous: entry produced no obligation")
 	}
 	res.Havoc = m.SortedHavoc()
+	for _, h := range res.Havoc {
+		// a verdict must not rest on an unreviewed stub: havocked callees make the run inconclusive
+		res.Inconcl = append(res.Inconcl, "havocked callee (no body, no intrinsic): "+h)
+	}
 	for f := range m.FuncsSeen {
 		res.Funcs = append(res.Funcs, funcDesc(prog, f))
 	}
